@@ -347,6 +347,23 @@ def gen_sweep(rng, rounds):
                     ds.append(d)
                 c["datas"] = ds
                 out.append(c)
+        # three types of which two meet in a type the third does not need: the pairwise promotion from the left
+        # (xp.asarray) and the common type of all (np.stack, xr.concat) differ for some orders
+        import itertools
+        for tri in (("int16", "uint16", "float32"), ("int8", "uint16", "float32"), ("int8", "uint8", "float32"),
+                    ("int32", "uint32", "float64"), ("int8", "int64", "uint64")):
+            for perm in itertools.permutations(tri):
+                s = gen_shape(rng, max_rank=2)
+                op = rng.choice(["min", "max", "sum", "mean"])
+                for backend, form in (("numpy", "multi"), (rng.choice(["dataarray", "dataset"]), "multi"), ("numpy", "stack"), ("numpy", "concat")):
+                    st = "wide" if form != "multi" or op in STRUCTURAL else "int"
+                    sh = [max(1, x) for x in s] if form == "concat" else s
+                    sh = sh or [2]
+                    c = {"backend": backend, "form": form, "op": op if form == "multi" else form, "dtype": perm[0], "dtypes": list(perm),
+                         "shapes": [sh] * 3 if form != "multi" else [s] * 3, "style": st,
+                         "axis": None if form == "multi" else rng.randint(-len(sh), len(sh) - 1)}
+                    c["datas"] = [gen_data(rng, math.prod(x), dt, c["op"], st) for x, dt in zip(c["shapes"], perm)]
+                    out.append(c)
     return out
 
 
